@@ -539,6 +539,22 @@ class Family:
                     pred, param, mod = rets[0].value, m.params[-1], m.module
         if pred is None:
             raise AnalysisError("filter %s is not understood (%s)" % (norm(fexpr), fn.loc(fexpr)))
+        # conditions that call a predicate method (s for s in t if self._keep(s)): the method's returned expression
+        from .astutil import subst as _subst_expr
+        import copy as _copy
+        ci_ = self.ci
+
+        class _InlinePred(ast.NodeTransformer):
+            def visit_Call(inner, n):
+                n = inner.generic_visit(n)
+                c = chain(n.func)
+                if c and len(c) == 2 and c[0] == "self" and c[1] in ci_.methods and len(n.args) == 1 and not n.keywords:
+                    m_ = ci_.methods[c[1]]
+                    rets_ = [x for x in ast.walk(m_.node) if isinstance(x, ast.Return) and x.value is not None]
+                    if len(rets_) == 1:
+                        return _subst_expr(rets_[0].value, {m_.params[-1]: n.args[0]})
+                return n
+        pred = ast.fix_missing_locations(_InlinePred().visit(_copy.deepcopy(pred)))
         out = []
         env0 = {}
         if flags and any(isinstance(x, ast.Name) and x.id == "self" for x in ast.walk(pred)):
@@ -649,6 +665,16 @@ class Family:
                     if te is None:
                         if attr not in st.tables:
                             continue      # not one of the sensor tables (e.g. a lookup cache)
+                        if isinstance(value, ast.GeneratorExp) or (
+                                isinstance(value, ast.Call) and isinstance(value.func, ast.Name)
+                                and value.func.id in ("filter", "map", "iter", "reversed", "zip", "enumerate")):
+                            from . import StructuralViolation
+                            raise StructuralViolation(
+                                ("C15",), "one-shot-table:%s:%s" % (self.ci.name, attr), fn.loc(node),
+                                "a sensor table is a re-iterable container: it is walked once per read to decode and again "
+                                "by sensors(), so both see the same rows",
+                                "%s is assigned a one-shot iterator (%s): the first _map_response consumes it, sensors() and "
+                                "every later read then see no rows of this block" % (attr, norm(value)))
                         raise AnalysisError("assignment to %s is not understood: %s (%s)" % (attr, norm(node), fn.loc(node)))
                     st.tables[attr] = tuple(r for _, rows in te for r in rows)
                     st.versions[attr] = st.versions.get(attr, 0) + 1
